@@ -13,7 +13,8 @@ Open Scope N_scope.
 (* mirrors src/lib.rs HpoError (CannotOpenFile is file-system, unmodelled) *)
 Inductive err :=
 | NotImplemented | DoesNotExist | ParseIntError | ParseBinaryError
-| TryFromIntError | InvalidInput.
+| TryFromIntError | InvalidInput
+| OracleMissing.  (* not a Rust error: the libm oracle table lacks an argument the model asked for *)
 
 Inductive res (A : Type) :=
 | Ok (a : A) | Err (e : err) | Panic | Fuel.
